@@ -153,7 +153,15 @@ def run(rep, facts):
                     for (p, lab) in g.pred.get(x.key, []):
                         if p.term["k"] == "switch" and not p.noise():
                             de = ir.peel(ev.switch_expr(p))
-                            if de[0] == 'call' and de[1] == "<std::io::ErrorKind as std::cmp::PartialEq>::eq":
+                            neg_ = False
+                            while de[0] == 'un' and de[1] == 'Not':
+                                neg_ = not neg_
+                                de = ir.peel(de[2])
+                            is_ne = de[0] == 'call' and de[1] in ("<std::io::ErrorKind as std::cmp::PartialEq>::ne", "std::cmp::PartialEq::ne")
+                            if is_ne != neg_ and isinstance(lab, tuple):
+                                # `!=` (or a negation): the equal outcome is the other edge
+                                lab = ('otherwise', (0,)) if lab == ('case', 0) else ('case', 0)
+                            if de[0] == 'call' and (de[1] == "<std::io::ErrorKind as std::cmp::PartialEq>::eq" or is_ne):
                                 # one operand is the constant kind, the other kind() of the handler's own error
                                 for (c_, v_) in ((de[2][0], de[2][1]), (de[2][1], de[2][0])):
                                     cc = ir.peel(c_)
